@@ -169,9 +169,13 @@ func (s *vsSUT) Start(initObs json.RawMessage) error {
 				s.done <- 18
 			}
 		}()
-		err := s.s.sendTransaction(
-			s.tx, InvalidTxThreshold(float32(s.thr)/100), RejectTimeout(vsRejectTimeout),
-		)
+		// 60 % is the package default: leave the option away so that the
+		// real default value (a float32 constant) is what gets compared.
+		opts := []QueryOption{RejectTimeout(vsRejectTimeout)}
+		if s.thr != 60 {
+			opts = append(opts, InvalidTxThreshold(float32(s.thr)/100))
+		}
+		err := s.s.sendTransaction(s.tx, opts...)
 		s.done <- vsClassify(err)
 	}()
 	s.settle()
